@@ -5,7 +5,7 @@ import (
 	"go/types"
 	"strings"
 
-	"golang.org/x/tools/go/ssa"
+	ssa "xvc/xssa"
 
 	"xvc/load"
 )
